@@ -30,6 +30,7 @@ import subprocess
 import time
 
 from tools import common as C
+from tools import irsizes
 from tools import c07_common as K
 from tools import lower
 from tools import regen
@@ -41,8 +42,8 @@ from tools import wowm_print as P
 
 PROP = "C07"
 TIERS = {
-    "quick": dict(programs=40, batch=40, nprof=2, maxlen=2, static=True, oversample=4),
-    "thorough": dict(programs=700, batch=100, nprof=3, maxlen=3, static=True, oversample=2),
+    "quick": dict(programs=40, batch=100, nprof=2, maxlen=2, static=True, oversample=8),
+    "thorough": dict(programs=500, batch=104, nprof=3, maxlen=3, static=True, oversample=2),
 }
 
 # Shapes on which the generator is KNOWN to abort before it writes anything (no culprit is named in the
@@ -128,6 +129,7 @@ class Ctx:
         self.timing = collections.Counter()
         self.held = collections.Counter()
         self.static_runs = []
+        self.sizes_judged = 0
 
     def report(self, entry, stage, verdict, sig, detail):
         feats = entry["features"]
@@ -343,7 +345,64 @@ def wire_stage(ws, cur, ctx, tag, params):
     ctx.wire_states += sum(s["distinct"] for s in stats)
     ctx.wire_transitions += sum(s["generated"] for s in stats)
     ctx.timing["wire_s"] += time.time() - t0
-    return paths
+    return paths, ldir, lw
+
+
+def sizes_stage(ws, cur, ctx, tag, ldir, lw):
+    """The sizes the generator computed for the programs (minimum / maximum / constant in the IR it
+    wrote into the scratch tree, and the guard literal compiled into each generated reader) against
+    the exact extremes of the definition (spec/MCSizes.tla = C09's judgement, on the programs): a
+    guard that is narrower than the definition rejects canonical encodings the replay's short
+    strings and arrays never reach."""
+    t0 = time.time()
+    ir_path = os.path.join(ws, "intermediate_representation.json")
+    if not os.path.exists(ir_path) or os.path.getsize(ir_path) == 0:
+        raise C.ToolError("the generator left no intermediate representation in the scratch tree")
+    wd = C.workdir("c07-sizes-" + tag)
+    byname = {e["slot"]["name"]: e for e in cur}
+    bytype = {}
+    for e in cur:
+        bytype[e["prefix"]] = e
+    recs, unmatched, guards = irsizes.build_decl(ir_path, lw, os.path.join(wd, "decl-all.ndjson"), repo=ws)
+    mine = []
+    for r in recs:
+        o = lw.objects[r["oid"] - 1]
+        e = byname.get(o["name"]) if o["kind"] in ("cmsg", "smsg") else next((x for pre, x in bytype.items() if o["name"].startswith(pre)), None)
+        if e is not None:
+            mine.append((r, e))
+    if len({id(e) for _, e in mine}) < len(cur):
+        raise C.ToolError("IR of the scratch tree lacks %d of %d programs" % (len(cur) - len({id(e) for _, e in mine}), len(cur)))
+    with open(os.path.join(wd, "decl.ndjson"), "w") as f:
+        for r, _ in mine:
+            f.write(json.dumps(r) + "\n")
+    env = {"WOWM_OBJECTS": ldir + "/objects.ndjson", "WOWM_BLOCKS": ldir + "/blocks.ndjson",
+           "WOWM_INDEX": ldir + "/index.json", "WOWM_NSHARDS": 1, "WOWM_SHARD": 0, "WOWM_NPROF": 1,
+           "WOWM_MAXLEN": 2, "WOWM_ONLY": "", "WOWM_DEEP": "0", "WOWM_FAULTS": "0", "WOWM_FAULT_EVERY": 1,
+           "WOWM_FAULT_PHASE": 0, "WOWM_CONST": wire.EMPTY_LIST, "WOWM_DECL": os.path.join(wd, "decl.ndjson")}
+    res = C.run_tlc("MCSizes", workers=1, timeout=600, env=env, name="c07-sizes-" + tag, coverage=False, xmx="3g")
+    ent = {r["oid"]: e for r, e in mine}
+    judged = 0
+    for v in res.replay:
+        judged += 1
+        # soundness clauses only: bounds that are wider than the definition's extremes (an `if` that
+        # happens to name every enumerator) still accept every canonical encoding
+        for clause in ("minOk", "maxOk", "constSound", "guardOk"):
+            if not v[clause]:
+                e = ent[v["oid"]]
+                kind = lw.objects[v["oid"] - 1]["kind"]
+                sig = "%s of %s: definition [%s, %s], declared [%s, %s]%s" % (
+                    clause, "message" if kind in ("cmsg", "smsg") else kind,
+                    "N", "N", "N", "N", " guard" if clause == "guardOk" else "")
+                if e.get("outcome") in (None, "ok"):
+                    e["outcome"] = "sizes_wrong"
+                    ctx.counts["sizes_wrong"] += 1
+                ctx.report(e, "sizes", clause, sig, {"judgement": v, "features": shapes_of(e)})
+    if judged < len(mine):
+        raise C.ToolError("MCSizes judged %d of %d declared records" % (judged, len(mine)))
+    ctx.sizes_judged += judged
+    ctx.wire_states += res.distinct
+    ctx.wire_transitions += res.generated
+    ctx.timing["sizes_s"] += time.time() - t0
 
 
 def replay_stage(binary, paths, cur, ctx):
@@ -416,8 +475,9 @@ def run_batch(ws, entries, ctx, tag, params, still_held):
     cur, binary = settle(ws, entries, ctx, static_tag=tag if params["static"] else None)
     if not cur:
         raise C.ToolError("no program of batch %s survived generator and compiler" % tag)
-    paths = wire_stage(ws, cur, ctx, tag, params)
+    paths, ldir, lw = wire_stage(ws, cur, ctx, tag, params)
     replay_stage(binary, paths, cur, ctx)
+    sizes_stage(ws, cur, ctx, tag, ldir, lw)
     return cur, binary, paths
 
 
@@ -469,6 +529,17 @@ def run(tier):
     missing = [f for f in REQUIRED_FEATURES[tier] if featc[f] == 0]
     if missing:
         raise C.ToolError("vacuous grammar run: features never generated: %s" % missing)
+    # second source: the exhaustive small-scope family of if statements (spec/WowmShapes.tla)
+    shape_progs, sstats = K.shapes(tier, tag="c07")
+    have = {json.dumps(p, sort_keys=True) for p in progs}
+    shape_progs = [p for p in shape_progs if json.dumps(p, sort_keys=True) not in have]
+    armc = collections.Counter(f for p in shape_progs for f in P.features(p) if f.startswith("arms:"))
+    if len(armc) < 6:
+        raise C.ToolError("vacuous WowmShapes run: only %d arm-extent classes" % len(armc))
+    log("shapes: %d programs (exhaustive over %s), %d arm-extent classes, %.1fs" %
+        (len(shape_progs), sstats["bounds"], len(armc), sstats["wall"]))
+    n_random = len(progs)
+    progs = progs + shape_progs
     corpus = F.load_corpus(C.REPO)
     slot_table = K.slots(corpus)
     ws = regen.make_scratch("c07")
@@ -496,14 +567,17 @@ def run(tier):
     wall = time.time() - t0
     outcomes = collections.Counter(e["outcome"] for e in all_entries)
     cov = {
-        "states": gstats["generated"] + ctx.wire_states,
-        "transitions": max(gstats["generated"] - gstats["walks"], 1) + ctx.wire_transitions,
+        "states": gstats["generated"] + sstats["distinct"] + ctx.wire_states,
+        "transitions": max(gstats["generated"] - gstats["walks"], 1) + sstats["generated"] + ctx.wire_transitions,
         "traces_validated_against_impl": ctx.behaviours,
         "samples": ctx.samples or [{"program": program_text(all_entries[0])}],
-        "grammar": {"walks": gstats["walks"], "states_generated": gstats["generated"], "distinct_programs": len(progs),
+        "shapes": {"programs": len(shape_progs), "states_distinct": sstats["distinct"], "bounds": sstats["bounds"],
+                   "exhaustive_within_bounds": True, "arm_extent_classes": dict(sorted(armc.items()))},
+        "grammar": {"walks": gstats["walks"], "states_generated": gstats["generated"], "distinct_programs": n_random,
                     "bounds": K.GRAMMAR_ENV, "features_generated": dict(sorted(featc.items()))},
-        "programs": {"generated": len(all_entries), "by_outcome": dict(outcomes),
-                     "held_back_by_shape": dict(ctx.held)},
+        "programs": len(all_entries),
+        "programs_by_outcome": dict(outcomes), "programs_held_back_by_shape": dict(ctx.held),
+        "size_judgements": ctx.sizes_judged,
         "behaviours_replayed": ctx.behaviours, "behaviours_ok": ctx.behaviours_ok,
         "wire_and_static_states": ctx.wire_states,
         "static_rule_check": ctx.static_runs,
@@ -541,8 +615,9 @@ def replay(path):
     try:
         cur, binary = settle(ws, [e], ctx)
         if cur:
-            paths = wire_stage(ws, cur, ctx, "replay", TIERS["thorough"])
+            paths, ldir_r, lw_r = wire_stage(ws, cur, ctx, "replay", TIERS["thorough"])
             replay_stage(binary, paths, cur, ctx)
+            sizes_stage(ws, cur, ctx, "replay", ldir_r, lw_r)
     except C.ToolError as ex:
         if e["outcome"] is None:
             raise
@@ -585,7 +660,7 @@ def selftest(tier):
         print("selftest C07 (a): ill-formed programs rejected by the generator with status %s, the well-formed original: %s" % (rcs, rc0))
         ok = ok and all(r != 0 for r in rcs) and rc0 == 0
         cur, binary = settle(ws, plain[:6], ctx)
-        paths = wire_stage(ws, cur, ctx, "selftest", TIERS["quick"])
+        paths, _, _ = wire_stage(ws, cur, ctx, "selftest", TIERS["quick"])
         recs = [r for r in wire.iter_records(paths) if r["kind"] == "codec"]
         vall, tot = R.run_records(binary, ["codec"], [json.dumps(r) for r in recs], jobs=4)
         badnames = {o.get("name") for o in vall}
